@@ -1,4 +1,5 @@
 //! C16 — name-value codec.
+use crate::util::catch;
 use crate::exec::{run as ex, Impl};
 use crate::util::*;
 use crate::gen::nv_enc;
@@ -108,7 +109,13 @@ pub fn run(ctx: &mut Ctx) {
         let mut ok = true;
         for p in &pairs {
             let before = wire.len();
-            match nv::write((&p.0, &p.1), &mut wire) {
+            // a panic of the encoder is an observation with its input, not a crash of the harness
+            let res = match catch(|| { let mut w = vec![]; let r = nv::write((&p.0, &p.1), &mut w); (r, w) }) {
+                Ok((r, w)) => { wire.extend_from_slice(&w); r }
+                Err(msg) => { ok = false; or.fail(format!("nv::write panicked for a pair of lengths ({}, {}): {msg}", p.0.len(), p.1.len()),
+                    format!("# case flat-oracle\nnv.write vec {} {}", hexd(&p.0), hexd(&p.1)), format!("write-panic:{}:{}", p.0.len(), p.1.len())); continue; }
+            };
+            match res {
                 Ok(n) if n == wire.len() - before && wire[before..] == spec_enc(p)[..] => {}
                 other => { ok = false; or.fail(format!("nv::write returned {other:?} for a pair of lengths ({}, {}); appended {} bytes", p.0.len(), p.1.len(), wire.len() - before),
                     format!("# case flat-oracle\nnv.write vec {} {}", hexd(&p.0), hexd(&p.1)), format!("write:{}:{}", p.0.len(), p.1.len())); }
